@@ -196,6 +196,8 @@ class Machine(object):
         self.cellneeds = None           # projected key -> needed cells (from the pre-analysis)
         self.dmax = DMAX
         self.harness = {'URI', 'STATE', 'ERRPOS', 'OCT'}   # caller-side objects of the analysis harness
+        self.concrete_heap = False      # concrete mode: heap blocks keep their contents
+        self.heap_zero = {}
         self.literals = False           # concrete mode: string literals are values
         self.input_writable = False     # concrete mode: in-place transformers may store into the text
         self.coarse_regs = True         # URI text-range fields hold NULL / placeholder / 'some input pointer'
@@ -315,6 +317,8 @@ class Machine(object):
             return ('c', c)
         obj, path = pl
         if obj[0] == 'H':
+            if self.concrete_heap:
+                return st.env.get(pl, ('i', 0) if self.heap_zero.get(obj) else TOP)
             return TOP
         if self.cellwatch and obj[0] == 'L' and len(path) == 2 and path[0] in self.cellwatch:
             self.obs.append(('cell-read', obj[1], path[0], path[1]))
@@ -346,6 +350,8 @@ class Machine(object):
         obj, path = pl
         if obj[0] == 'H':
             self.obs.append(('heap-store', obj, path, v, loc))
+            if self.concrete_heap:
+                st.env[pl] = v
             return
         if obj == ('G', 'URI') and path and path[-1] in ('first', 'afterLast'):
             self.obs.append(('reg-store', path, v, loc, st.eof))
@@ -1019,6 +1025,9 @@ class Runner(Machine):
         if ok:
             st.heap[site] = min(2, st.heap.get(site, 0) + 1)
             v = ('a', ('H', site), ())
+            if self.concrete_heap:
+                ins0 = self.finfo(st.frames[-1][0]).byid[st.frames[-1][1]].ins[st.frames[-1][2]]
+                self.heap_zero[('H', site)] = manager_call(ins0)[0] == 'calloc'
         else:
             st.flags['oom'] = 1
             v = NULL
